@@ -621,8 +621,22 @@ func runC01(c *run.Ctx, s *kit.Summary) {
 		if i%25 == 0 { // a few long runs at realistic rates whose interval is truncated
 			x.Freq, x.Per, x.Steps = r.PickI64([]int64{30000, 7, 999, 123457, 3}), 1000000000, c.N(250000, 400000)
 		}
+		if i%10 == 3 {
+			// frequencies at the top of the int range with units so large that (hits+1)·Per crosses the
+			// 64-bit word boundary (and the sum with Freq-1 the 2^64 boundary) within the first hits
+			x.Freq = maxI64 - r.Range(0, int64(1)<<uint(r.Pick(62)))
+			if x.Freq < 1<<61 {
+				x.Freq = 1<<61 + r.Range(0, 1<<60)
+			}
+			x.Per = maxI64/r.Range(1, 64) - r.Range(0, 3)
+			x.Steps = 400
+			s.Count("const.loop:word_boundary_class")
+		}
 		if x.Freq <= x.Per || r.Chance(0.5) {
 			x.Stalls = genStalls(r, x.Steps, typicalInterval(x))
+		}
+		if i%10 == 3 && r.Chance(0.7) {
+			x.Stalls = nil
 		}
 		loop(st, s, x, true)
 		if i < 1 {
